@@ -1,6 +1,8 @@
 CONSTANTS
-  Classes = {"E", "W", "H", "C", "F1", "F1ba", "F0s", "X"}
+  Classes = {"E", "W", "H", "C", "F1", "F1b", "F1a", "F1ba", "F0", "F0s", "X"}
   MaxLines = 4
+  NarrowClasses = {"E", "W", "H", "C", "F1", "F1ba", "F0s", "X"}
+  NarrowMaxLines = 5
   Emit = "case"
   MergeUnterminatedWs = FALSE
   DropFloatingComment = FALSE
